@@ -80,7 +80,7 @@ func runC01(c *Ctx) {
 		wl = append(wl, w)
 	}
 	sort.Slice(wl, func(i, j int) bool { return fnKey(wl[i]) < fnKey(wl[j]) })
-	c.floor("inv-player", "writers of chip accounts", len(wl), 4)
+	c.floor("inv-player", "writers of chip accounts", len(wl), 2)
 	var sweepers, resetters []*ssa.Function
 	inWL := map[*ssa.Function]bool{}
 	for _, w := range wl {
@@ -355,7 +355,7 @@ func runC01(c *Ctx) {
 			}
 			c.check(len(bad) == 0, "boundary-pairing", fnKey(cl), p.FnPos(cl), "sweep and round-pot reset happen together", "round boundary half done", uniq(bad, 3)...)
 		}
-		c.floor("boundary-pairing", "round-boundary callers", n, 3)
+		c.floor("boundary-pairing", "round-boundary callers", n, 2)
 		// the sweep reaches every player: in a sweeper's loop over the players no iteration ends without
 		// the wager having been moved (a folded player's last wager is swept like any other, or the
 		// wagers on the table no longer add up to the round pot, which IS reset for all)
@@ -484,15 +484,16 @@ func runC01(c *Ctx) {
 	} else {
 		c.touch(fnKey(settle))
 		c.role("settlement entry", fnKey(settle))
-		s := newSumm(p, 0)
+		s := withPrivateHelpers(newSumm(p, 0), settle)
 		okB := false
 		var why string
-		for _, l := range s.loops(settle) {
+		for _, hl := range loopsWithHelpers(s, settle) {
+			l := hl.L
 			ri := analyseRange(l)
 			if !loadsField(ri.Coll, "pokerface.GameState.Players") {
 				continue
 			}
-			body, _ := s.LoopBody(settle, l)
+			body, _ := s.LoopBody(hl.Fn, l)
 			okB = len(body) > 0 && ri.Full
 			for _, ps := range body {
 				calls := ps.Calls(".AddPlayer")
